@@ -51,6 +51,12 @@ CLAIMED = {
             note="Trusted: Coq kernel, extraction+driver, harness. Sparse wrappers, LazySparse/LazyDense missing-value handling, EncodeCatRows and row predicates are oracle-only (no theorem); the model's encoders are a four-constructor family; "
                  "keys outside the eager table (negative positions, dropped names) are outside the property.",
             technique="Coq proof (representation invariant over access-function records) + extracted-model correspondence + eager oracle", design="§5 C13"),
+ "C14": dict(text="Coq theorems (C14/Props.v): the action set is the sorted set of distinct labels (sorted, duplicate-free, exactly the labels of the data); classification reward is 1 at the label and 0 elsewhere, the label is offered, "
+                  "hence it is the unique best action; regression reward is -|a-y| with its maximum exactly at y; the multi-label reward of a single-label action is the Jaccard overlap; one interaction per example. "
+                  "The extracted model is compared with SupervisedSimulation on (X,Y) sets; a recomputation oracle checks context = features without label, actions, rewards, count, order and determinism end-to-end for "
+                  "CSV, ARFF, LibSVM and Manik sources, label by index/header, c/r/m/inferred types (explicit type first), with and without take.",
+            note="Trusted: Coq kernel, extraction+driver, harness. The readers (C12), LabelRows/feats (C13) and Reservoir (C09) are used as they are; labels are mapped to integer ranks for the model; with take the label set is the sample's; tensor actions are not covered.",
+            technique="Coq proof over reward/action model + extracted-model correspondence + end-to-end recomputation oracle", design="§5 C14"),
 }
 NA_REASON = "check not built yet in this revision (planned, see DESIGN.md §8); no claim is made"
 def main():
